@@ -41,7 +41,7 @@ from runner import Infra, TieBroken
 
 ID = "C13"
 LEAN_MODULES = ["PyYetiVerif.Props.C13", "PyYetiVerif.Props.C13Text", "PyYetiVerif.Props.C13Dmig", "PyYetiVerif.Props.C13Grid",
-                "PyYetiVerif.Props.C13Cord", "PyYetiVerif.Props.C13DmigX", "PyYetiVerif.Props.C13Fmt", "PyYetiVerif.Props.C13Multi", "PyYetiVerif.Audit.C13"]
+                "PyYetiVerif.Props.C13Cord", "PyYetiVerif.Props.C13DmigX", "PyYetiVerif.Props.C13Fmt", "PyYetiVerif.Props.C13Multi", "PyYetiVerif.Props.C13Values", "PyYetiVerif.Audit.C13"]
 AUDIT_FILE = "PyYetiVerif/Audit/C13.lean"
 THEOREMS = [
     "PyYetiVerif.C13." + n
@@ -59,7 +59,9 @@ THEOREMS = [
         "rddmig_expanded_spec rddmig_square_spec rddmig_options_on_lines "
         "bulk_format_widths_ok dmig_lines_are_templates grid_card_is_template cord_card_is_template nasints_is_template "
         "set_tokens_are_templates tabled1_is_template "
-        "readers_independent typed_readers_independent sets_in_file wtset_is_segment"
+        "readers_independent typed_readers_independent sets_in_file wtset_is_segment "
+        "real_field_reads real_field_accuracy real_field_clean tabled1_roundtrip_values grid_roundtrip_values "
+        "cord2_roundtrip_values dmig_roundtrip_values dmig_lines_int_instance"
     ).split()
 ]
 TRUSTED = [
@@ -1481,6 +1483,111 @@ def _multi_streams(ctx, B):
         B.add("multi-file", "rdsets " + th, {"text": text, "reader": "rdsets"}, impl, conv_sets)
 
 
+# ---------------------------------------------------------------------------------------
+# real-valued fields (Model/BulkReal.lean: C12's exact float formatting)
+
+import struct
+
+
+def _bits(x):
+    return struct.unpack("<Q", struct.pack("<d", float(x)))[0]
+
+
+def _gen_double(rng):
+    u = rng.random()
+    if u < 0.08:
+        return rng.choice([0.0, -0.0, 1.0, -1.0, 0.5, 9.9999999995, 99999.999995, 9.9999999999999e99, 1e100, -1e-100, 5e-324,
+                           -2.2250738585072014e-308, 1.7976931348623157e308, 0.1, -0.015625, 123456789.0, 999999.999999995])
+    if u < 0.5:
+        return rng.choice([-1.0, 1.0]) * rng.uniform(1.0, 9.999999) * 10.0 ** rng.randint(-12, 12)
+    if u < 0.8:
+        return rng.choice([-1.0, 1.0]) * rng.uniform(1.0, 9.999999) * 10.0 ** rng.randint(-300, 300)
+    if u < 0.9:
+        return float(rng.randint(-10 ** 9, 10 ** 9)) / rng.choice([1, 2, 4, 8, 1000])
+    # values that round to the next power of ten at 9 / 10 significant digits
+    return rng.choice([-1.0, 1.0]) * (10.0 ** rng.randint(-20, 20)) * (1 - rng.choice([1e-10, 4.9e-10, 5e-10, 5.1e-10, 1e-9, 1e-11]))
+
+
+REAL_SPECS = [(16, 9, "E"), (16, 8, "e"), (16, 8, "f"), (8, 2, "f"), (8, 5, "f"), (16, 2, "f"), (16, 5, "f"), (8, 3, "f"), (16, 6, "f"),
+              (8, 1, "f")]
+
+
+def _gen_dmig_real(rng):
+    """a real / complex valued DMIG input: _gen_dmig_int structure with non-integer doubles (float32 for types 1 / 3)"""
+    d = _gen_dmig_int(rng)
+    dt = {1: np.float32, 2: np.float64, 3: np.float32, 4: np.float64}[d["mtype"]]
+
+    def rv():
+        mag = 10.0 ** rng.randint(-30 if d["mtype"] % 2 == 0 else -20, 30 if d["mtype"] % 2 == 0 else 20) if rng.random() < 0.5 else 1.0
+        return float(dt(rng.uniform(0.5, 9.5) * rng.choice([-1, 1]) * mag))
+
+    vals = {}
+    m = []
+    for i, row in enumerate(d["m"]):
+        out = []
+        for j, (re, im) in enumerate(row):
+            key = (min(i, j), max(i, j)) if d["kind"] in ("sym", "sparse-sym", "f9-unequal") else (i, j)
+            if key not in vals:
+                vals[key] = (rv() if re else 0.0, rv() if im else 0.0)
+            x, y = vals[key]
+            if d["kind"] == "hermitian" and i < j:
+                y = -vals[(j, i)][1] if (j, i) in vals else y
+            out.append((x, y))
+        m.append(out)
+    if d["kind"] == "hermitian":
+        for i in range(len(m)):
+            for j in range(i):
+                m[j][i] = (m[i][j][0], -m[i][j][1])
+    d["mr"] = m
+    return d
+
+
+def _dmig_real_req(d):
+    flat = []
+    for p in d["rowids"] + d["colids"]:
+        flat += [p[0], p[1]]
+    for row in d["mr"]:
+        for re, im in row:
+            flat += [_bits(re) if re != 0 else 0, _bits(im) if im != 0 else 0]
+    return "dmigr %s %d %d %d %d %s" % (_hex(d["name"]), 1 if d["single"] else 0, d["mtype"], len(d["rowids"]), len(d["colids"]),
+                                        " ".join(str(v) for v in flat))
+
+
+def _real_streams(ctx, B, texts):
+    bulk = _bulk()
+    rng = ctx.rng
+    for _ in range(ctx.pick(1500, 15000)):
+        x = _gen_double(rng)
+        w, p, ty = REAL_SPECS[rng.randrange(len(REAL_SPECS))] if rng.random() < 0.5 else REAL_SPECS[rng.randrange(3)]
+        if ty == "f" and abs(x) > 1e22:
+            x = x / 10.0 ** rng.randint(280, 300) if abs(x) > 1e280 else math.copysign(1.0, x) * (abs(x) % 1e15)
+        impl = ("{:%d.%d%s}" % (w, p, ty)).format(x)
+        if ty == "f":
+            req = "pyf %d %d %d" % (w, p, _bits(x))
+        else:
+            ec = ty
+            if ty == "E" and rng.random() < 0.4:
+                impl, ec = impl.replace("E", "D"), "D"
+            req = "pye %d %d %s %d" % (w, p, ec, _bits(x))
+        e3 = ty != "f" and x != 0 and not (1e-99 <= abs(x) < 9.9e99)
+        B.add("real-fields", req, {"x": x, "spec": "{:%d.%d%s}" % (w, p, ty)}, impl, lambda rep: _unhex(rep),
+              branch=["real:" + ty] + (["real:three-digit-exponent"] if e3 else []) + (["real:zero"] if x == 0 else []) +
+                     (["real:wider-than-field"] if len(impl) > w else []))
+    for _ in range(ctx.pick(250, 2500)):
+        d = _gen_dmig_real(rng)
+        a = np.array([[complex(re, im) for re, im in row] for row in d["mr"]])
+        if a.shape[0] == a.shape[1] and np.allclose(a.T, a) and not np.array_equal(a.T, a):
+            # symmetric within np.allclose only: symmetric by the writer's definition, outside the model's (ASSUMPTIONS)
+            ctx.skip("dmig-real: symmetric within np.allclose but not exactly")
+            continue
+        impl = _write(bulk.wtdmig, {d["name"]: _dmig_frame(d, a if d["mtype"] >= 3 else a.real)})
+        form = impl[24:32].strip() if isinstance(impl, str) and len(impl) > 32 else "?"
+        B.add("wtdmig-real", _dmig_real_req(d), {k: d[k] for k in ("name", "single", "mtype", "rowids", "colids", "mr")}, impl,
+              _text_conv(), branch=["dmigr:form" + form, "dmigr:type%d" % d["mtype"]])
+        if isinstance(impl, str) and not impl.startswith("error") and rng.random() < 0.5:
+            texts.append(("dmig", impl))
+
+
 REQUIRED = [
     "findseq:ok", "findseq:error", "nasints:short", "nasints:exact-fill", "nasints:remainder",
     "csuper:one-line", "csuper:exact-fill", "csuper:remainder", "extrn:exact-fill", "extrn:remainder",
@@ -1494,6 +1601,8 @@ REQUIRED = [
     "grids:ValueError", "grids:defaults", "cord:written", "uset:with-coords", "uset:no-coords",
     "rdgrids:ok", "rdgrids:none", "rdgrids:index-error", "rdgrids:ragged", "rdcardsk", "rdcord2:ok", "rdcord2:error",
     "rdcord2:empty", "rdcord2:13-fields", "rdcord2cards",
+    "real:E", "real:e", "real:f", "real:three-digit-exponent", "real:zero", "real:wider-than-field",
+    "dmigr:form1", "dmigr:form2", "dmigr:form6", "dmigr:form9", "dmigr:type1", "dmigr:type2", "dmigr:type3", "dmigr:type4",
     "multi:fileok", "multi:dmig", "multi:grid", "multi:cord2", "multi:spoint", "multi:csuper", "multi:extrn", "multi:tabled1",
     "multi:set", "multi:rddmig-ok", "multi:rddmig-no-dmig-card", "rddmigx:expanded", "rddmigx:square", "rddmigx:expandedsquare", "rddmigx:form1-expanded", "rddmigx:form1-square",
     "rddmigx:form2-expanded", "rddmigx:form6-expanded", "rddmigx:form6-square", "rddmigx:form9-expanded", "rddmigx:form9-square",
@@ -1505,6 +1614,7 @@ def correspondence(ctx):
     texts = []
     _writer_streams(ctx, B, texts)
     _grid_streams(ctx, B, texts)
+    _real_streams(ctx, B, texts)
     _reader_streams(ctx, B, texts)
     _grid_reader_streams(ctx, B, texts)
     _multi_streams(ctx, B)
